@@ -1986,27 +1986,29 @@ class Lowerer:
         if key.startswith('std::atomic<'):
             self.need_record(bt)
             self.note('std::atomic operation %s lowered sequentially (seq_cst, single thread)' % name)
-            if name == 'load':
+            if name == 'load' or name.startswith('operator '):
                 return '(%s)->_v' % obj
+            if name == 'operator=' and len(args) == 1:
+                return '((%s)->_v = %s)' % (obj, self.expr(args[0]))
             if name == 'store':
                 return '((%s)->_v = %s)' % (obj, self.expr(args[0]))
             if name == 'fetch_add':
                 t = self.ty(e['type'])
                 h = self.helper('atomic_fetch_add_%s' % mangle(self.cty(t)),
-                                'static inline %s atomic_fetch_add_%s(%s* p, %s v) { %s o = *p; *p = o + v; return o; }' %
+                                'static inline %s atomic_fetch_add_%s(%s* p, %s v) { __CPROVER_atomic_begin(); %s o = *p; *p = o + v; __CPROVER_atomic_end(); return o; }' %
                                 ((self.cty(t), mangle(self.cty(t))) + (self.cty(t),) * 3))
                 return '%s(&(%s)->_v, %s)' % (h, obj, self.expr(args[0]))
             if name == 'fetch_sub':
                 t = self.ty(e['type'])
                 h = self.helper('atomic_fetch_sub_%s' % mangle(self.cty(t)),
-                                'static inline %s atomic_fetch_sub_%s(%s* p, %s v) { %s o = *p; *p = o - v; return o; }' %
+                                'static inline %s atomic_fetch_sub_%s(%s* p, %s v) { __CPROVER_atomic_begin(); %s o = *p; *p = o - v; __CPROVER_atomic_end(); return o; }' %
                                 ((self.cty(t), mangle(self.cty(t))) + (self.cty(t),) * 3))
                 return '%s(&(%s)->_v, %s)' % (h, obj, self.expr(args[0]))
             if name in ('compare_exchange_strong', 'compare_exchange_weak'):
                 t = self.ty(args[0]['type']).noref()
                 ct = self.cty(t)
                 h = self.helper('atomic_cas_%s' % mangle(ct),
-                                'static inline _Bool atomic_cas_%s(%s* p, %s* exp, %s des) { if (*p == *exp) { *p = des; return 1; } *exp = *p; return 0; }' %
+                                'static inline _Bool atomic_cas_%s(%s* p, %s* exp, %s des) { _Bool ok; __CPROVER_atomic_begin(); if (*p == *exp) { *p = des; ok = 1; } else { *exp = *p; ok = 0; } __CPROVER_atomic_end(); return ok; }' %
                                 (mangle(ct), ct, ct, ct))
                 return '%s(&(%s)->_v, %s, %s)' % (h, obj, self.addr(args[0]), self.expr(args[1]))
         hook = getattr(self, 'ext_builtin_method', None)
